@@ -7,7 +7,8 @@ import json, random
 ATOM = {"a": ["10.0.0.0/10"], "b": ["10.64.0.0/10"], "d": ["10.192.0.0/10"], "c": ["2001:db8:8000::/33"],
         "r9": ["10.0.0.0/9", "10.128.0.0/9"],
         "r11": ["10.%d.0.0/11" % (32 * k) for k in range(8)],
-        "h11": ["10.%d.0.0/11" % (32 * k) for k in range(4)]}
+        "h11": ["10.%d.0.0/11" % (32 * k) for k in range(4)],
+        "r33": ["2001:db8::/33", "2001:db8:8000::/33"]}
 
 def prefixes(xs):
     out = []
